@@ -187,16 +187,16 @@ class Watch(object):
         self.mon = mon
         self.kind = kind              # pre | post | mid | late
         self.epoch = mon.epoch        # epoch in which it was registered
-        self.events = []              # (cb|eb, epoch, t, value)
+        self.events = []              # (cb|eb, epoch, t, value, length of the node-side event history at that moment)
         self.immediate = None         # for late registrations: events delivered during the registering call
 
     def cb(self, value):
         if not self.mon.frozen:
-            self.events.append(('cb', self.mon.epoch, self.mon.world.now, value))
+            self.events.append(('cb', self.mon.epoch, self.mon.world.now, value, self.mon.ev_index()))
 
     def eb(self, exc):
         if not self.mon.frozen:
-            self.events.append(('eb', self.mon.epoch, self.mon.world.now, exc))
+            self.events.append(('eb', self.mon.epoch, self.mon.world.now, exc, self.mon.ev_index()))
 
     def in_epoch(self, e):
         return [x for x in self.events if x[1] == e]
@@ -204,8 +204,9 @@ class Watch(object):
 
 class Mon(object):
     """monitor of one ResponseFuture (all its page epochs)"""
-    def __init__(self, world, uid, timeout):
+    def __init__(self, world, uid, timeout, net=None):
         self.world = world
+        self.net = net
         self.uid = uid
         self.timeout = timeout
         self.future = None
@@ -232,6 +233,9 @@ class Mon(object):
             self.future.add_errback(w.eb)
             self.future.add_callback(w.cb)
         return w
+
+    def ev_index(self):
+        return len(self.net.events) if self.net is not None else 0
 
     def next_epoch(self, net=None):
         """call immediately before ResponseFuture.start_fetching_next_page()"""
